@@ -3,6 +3,7 @@ import CssVerif.Lemmas.CodecInc
 import CssVerif.Lemmas.CodecEnc
 import CssVerif.Lemmas.CodecAgree
 import CssVerif.Lemmas.CodecStream
+import CssVerif.Lemmas.CodecAuto
 /-!
 # C07 — CSS codec: detection follows CSS 2.1 §4.4, early answers are never revised
 
@@ -271,6 +272,107 @@ theorem roundtrip_given_chunked (g : Name) (c : CName) (ts bs : List (List Nat))
   exact roundtrip_given g c ts.flatten hl henc
 
 
+
+/-! ## round trip with auto-detection (no `encoding` argument on the decoding side) -/
+
+/-- T7.1 (auto-detected, BOM): a text encoded with a BOM-writing encoding (`utf-8-sig`, `utf-16`, `utf-32`, any
+spelling the model knows) and decoded WITHOUT an `encoding` argument comes back with the name of its `@charset`
+rule rewritten to the detected encoding (`utf-8` / `utf-16` / `utf-32`). `_partial`: for `utf-16` the text
+must not start with U+0000 — `FF FE 00 00` is the UTF-32 BOM (negation: `utf16_nul_is_utf32`). -/
+theorem roundtrip_auto_bom_partial (g : Name) (c : CName) (t : List Nat) (hl : lookupName g = some c)
+    (hc : c = .u8sig ∨ c = .u16 ∨ c = .u32)
+    (henc : (encScan c.kind (fixFinal t g)).2 = true)
+    (hnul : c = .u16 → (fixFinal t g).head? ≠ some 0) :
+    oneShot cpyInner none true (encodeOneShot cpyInnerEnc (some g) t) = fixFinal t (detected c) := by
+  have e1 : encodeOneShot cpyInnerEnc (some g) t = c.bom ++ (encScan c.kind (fixFinal t g)).1 := by
+    simp [encodeOneShot, cpyInnerEnc, cpyEncOut, hl, encOut]
+  have hdet : detect (c.bom ++ (encScan c.kind (fixFinal t g)).1) true =
+      some (match c with | .u8sig => .utf8sig | .u16 => .utf16 | .u32 => .utf32 | .plain _ => .utf8, true) := by
+    rcases hc with rfl | rfl | rfl
+    · exact bom_utf8 _ true
+    · have henc' : (encScan .u16le (fixFinal t g)).2 = true := henc
+      have hh := enc16_head (fixFinal t g) (encScan .u16le (fixFinal t g)).1 (by rw [← henc']) (hnul rfl)
+      rcases hh with hh | ⟨a, b, rest, hh, hab⟩
+      · show detect (bom16le ++ (encScan .u16le (fixFinal t g)).1) true = _
+        rw [hh]; exact bom_utf16_le_short.1
+      · show detect (bom16le ++ (encScan .u16le (fixFinal t g)).1) true = _
+        rw [hh]; exact bom_utf16_le a b rest true hab
+    · exact bom_utf32_le _ true
+  have hfe : finalEnc none true (c.bom ++ (encScan c.kind (fixFinal t g)).1) = detected c := by
+    have hdf : detectFinal (c.bom ++ (encScan c.kind (fixFinal t g)).1) = _ :=
+      Option.some.inj ((detect_true _).symm.trans hdet)
+    unfold finalEnc pick
+    rw [hdf]
+    rcases hc with rfl | rfl | rfl <;> rfl
+  have hl2 : lookupName (detected c) = some c := by
+    rcases hc with rfl | rfl | rfl <;> decide
+  rw [e1]
+  unfold oneShot
+  rw [hfe]
+  have e3 : cpyInner.out (detected c) (c.bom ++ (encScan c.kind (fixFinal t g)).1) true = fixFinal t g := by
+    simp only [cpyInner, cpyOut, hl2, incOut_encode c _ henc]
+  rw [e3]
+  exact fixFinal_fixFinal t g (detected c) (lookup_written_noquote g c hl)
+
+/-- where the guard bites: `"\0"` encoded as utf-16 is `FF FE 00 00`, which the detector must read as the UTF-32
+BOM (CSS 2.1 §4.4) — decoded without `encoding` it comes back empty -/
+theorem utf16_nul_is_utf32 :
+    encodeOneShot cpyInnerEnc (some (cps' "utf-16")) [0] = [0xFF, 0xFE, 0, 0] ∧
+    oneShot cpyInner none true [0xFF, 0xFE, 0, 0] = [] := by decide
+
+/-- T7.1 (auto-detected, `@charset`): a text that starts with a complete `@charset "…"` rule, encoded in an
+ASCII-compatible encoding `g` (utf-8, latin-1, ASCII, any known spelling) and decoded WITHOUT an `encoding`
+argument is decoded with `g` — the rewritten rule names it — and comes back as the text with the name `g` -/
+theorem roundtrip_auto_charset (g : Name) (k : Kind) (name0 rest : List Nat)
+    (hl : lookupName g = some (.plain k)) (hk : k = .u8 ∨ k = .l1 ∨ k = .ascii)
+    (hn : ∀ ch ∈ name0, ch ≠ 0x22)
+    (henc : (encScan k (fixFinal (prefix10 ++ name0 ++ 0x22 :: rest) g)).2 = true) :
+    oneShot cpyInner none true (encodeOneShot cpyInnerEnc (some g) (prefix10 ++ name0 ++ 0x22 :: rest)) =
+      fixFinal (prefix10 ++ name0 ++ 0x22 :: rest) g := by
+  have hw := not_sig_of_plain g k hl
+  have hq : ∀ ch ∈ g, ch ≠ 0x22 := by
+    have := lookup_written_noquote g _ hl; rwa [hw] at this
+  have hx : fixFinal (prefix10 ++ name0 ++ 0x22 :: rest) g = prefix10 ++ g ++ 0x22 :: rest := by
+    have l1 : (prefix10 ++ name0 ++ 0x22 :: rest).length > 10 := by simp [prefix10]; omega
+    have l2 : prefix10.isPrefixOf (prefix10 ++ name0 ++ 0x22 :: rest) = true := by
+      rw [List.isPrefixOf_iff_prefix, List.append_assoc]; exact List.prefix_append _ _
+    have l3 : (prefix10 ++ name0 ++ 0x22 :: rest).drop 10 = name0 ++ 0x22 :: rest := by simp [prefix10]
+    have hww : (if normName g = utf8sigName then utf8Name else g) = g := hw
+    simp only [fixFinal, l1, l2, if_true, l3, findQuote_noquote _ hn, hww]
+    simp
+  rw [hx] at henc ⊢
+  -- the ASCII head of the text is its own encoding
+  have hsplit : prefix10 ++ g ++ 0x22 :: rest = (prefix10 ++ g ++ [0x22]) ++ rest := by simp
+  have hasc : ∀ ch ∈ prefix10 ++ g ++ [0x22], ch < 0x80 := by
+    intro ch hch
+    simp only [List.mem_append, List.mem_singleton] at hch
+    rcases hch with (h | h) | h
+    · revert ch; decide
+    · exact lookup_ascii g _ hl ch h
+    · omega
+  have hA := encScan_ascii k hk _ hasc
+  have hE : (encScan k (prefix10 ++ g ++ 0x22 :: rest)).1 = prefix10 ++ g ++ 0x22 :: (encScan k rest).1 := by
+    rw [hsplit, encScan_append, hA]; simp
+  have e1 : encodeOneShot cpyInnerEnc (some g) (prefix10 ++ name0 ++ 0x22 :: rest) =
+      prefix10 ++ g ++ 0x22 :: (encScan k rest).1 := by
+    simp only [encodeOneShot, cpyInnerEnc, cpyEncOut, hl, encOut, hx, CName.bom, CName.kind, hE]
+    simp [prefix10]
+  rw [e1]
+  have hdet := charset_rule g (encScan k rest).1 true hq
+  have hfe : finalEnc none true (prefix10 ++ g ++ 0x22 :: (encScan k rest).1) = g := by
+    have hdf : detectFinal (prefix10 ++ g ++ 0x22 :: (encScan k rest).1) = _ :=
+      Option.some.inj ((detect_true _).symm.trans hdet)
+    unfold finalEnc pick
+    rw [hdf]; rfl
+  unfold oneShot
+  rw [hfe]
+  have e3 : cpyInner.out g (prefix10 ++ g ++ 0x22 :: (encScan k rest).1) true = prefix10 ++ g ++ 0x22 :: rest := by
+    have := incOut_encode (.plain k) (prefix10 ++ g ++ 0x22 :: rest) henc
+    simp only [CName.bom, CName.kind, List.nil_append, hE] at this
+    simp only [cpyInner, cpyOut, hl, this]
+  rw [e3, ← hx]
+  exact fixFinal_twice _ g (lookup_written_noquote g _ hl)
+
 /-! ## the stream classes (`StreamReader`, `StreamWriter`; `Model/CodecStream.lean`) -/
 
 /-- T7.7 the stream reader, for EVERY way the stream hands out the bytes and every `encoding` / `force`: what
@@ -384,5 +486,14 @@ example : ¬ RUnd cpyInner none true ([[0xFF], [0xFE, 0x61], [0, 0x7B, 0], [0x7D
   decide
 /-- … and the data that stays buffered: an open `@charset` rule -/
 example : readAll cpyInner none true [[0x40, 0x63, 0x68]] = [] ∧ RUnd cpyInner none true [0x40, 0x63, 0x68] := by decide
+/-- auto-detection: `é` as utf-16 with BOM, and `@charset "x";é` as latin-1 -/
+example : lookupName (cps' "UTF_16") = some .u16 ∧
+    (encScan CName.u16.kind (fixFinal [0xE9] (cps' "UTF_16"))).2 = true ∧
+    (fixFinal [0xE9] (cps' "UTF_16")).head? ≠ some 0 := by decide
+example : oneShot cpyInner none true (encodeOneShot cpyInnerEnc (some (cps' "UTF_16")) [0xE9]) = [0xE9] := by decide
+example : lookupName (cps' "latin-1") = some (.plain .l1) ∧
+    (encScan .l1 (fixFinal (prefix10 ++ [0x78] ++ 0x22 :: [0x3B, 0xE9]) (cps' "latin-1"))).2 = true := by decide
+example : oneShot cpyInner none true (encodeOneShot cpyInnerEnc (some (cps' "latin-1")) (prefix10 ++ [0x78] ++ 0x22 :: [0x3B, 0xE9])) =
+    prefix10 ++ cps' "latin-1" ++ [0x22, 0x3B, 0xE9] := by decide
 
 end CssVerif.C07
